@@ -302,4 +302,17 @@ def validate_native(E, paths, lv, conc, out, nmax=2, big=False):
             out["result"] = "violation"
             out["cex"] = res
             break
+    if done == 0 and out.get("result") != "violation":
+        # no explored path gave a model (every path aborted, or the solver gave up): one native run on ordinary values, so that a
+        # skeleton is never left without any comparison of the real code with the reference
+        vals = [(0.5 + 0.75 * (i % 5) if k == "float" else 2 + (3 * i % 7)) for i, (_, k, _) in enumerate(lv.vars)]
+        try:
+            res = conc(vals)
+        except Exception:  # noqa
+            res = None
+        done += 1
+        if isinstance(res, dict):
+            res["what"] = "native run on ordinary values differs from the reference (the symbolic run reached no verdict): " + str(res.get("what"))
+            out["result"] = "violation"
+            out["cex"] = res
     out["validated"] = out.get("validated", 0) + done
